@@ -417,6 +417,8 @@ func c18Records() (recs []string, has map[string]string) {
 func runC18(sc *C18Scenario, tr *kit.Trace) *kit.Result {
 	res := kit.NewResult()
 	kit.Bubble(func() {
+		t0 := time.Now()
+		defer func() { res.SimTime = time.Since(t0) }()
 		c18Phase1(sc, tr, res)
 		if res.Viol == nil {
 			c18Phase2(sc, tr, res)
@@ -512,7 +514,7 @@ func c18Phase1(sc *C18Scenario, tr *kit.Trace, res *kit.Result) {
 				return
 			}
 		default:
-			if len(m.Answer) != 0 || (m.Rcode != dns.RcodeSuccess && m.Rcode != dns.RcodeNameError) {
+			if (st.Type == dns.TypeA && len(m.Answer) != 0) || (m.Rcode != dns.RcodeSuccess && m.Rcode != dns.RcodeNameError) {
 				res.Fail("C18/unlisted-name-altered", "step %d: %s/%s is not listed; expected an empty NOERROR/NXDOMAIN, got:\n%s", i, st.Q, dns.TypeToString[st.Type], m)
 				return
 			}
@@ -591,8 +593,7 @@ func c18ParseFile(b []byte) (set string, lines int, garbage string) {
 			exact = append(exact, l)
 		}
 	}
-	sort.Strings(exact)
-	sort.Strings(wild)
+	exact, wild = c18Uniq(exact), c18Uniq(wild)
 	return strings.Join(exact, ",") + "|" + strings.Join(wild, ","), lines, ""
 }
 
@@ -606,15 +607,30 @@ func c18Phase2(sc *C18Scenario, tr *kit.Trace, res *kit.Result) {
 		return
 	}
 	disk := simdisk.New(c18Dir)
+	disk.NoOwner = true
 	verifos.Install(disk)
 	defer verifos.Install(nil)
 	bldir := c18Dir + "/blacklists"
 	disk.MkdirDurable(bldir)
-	preSig := ""
+	preSig := "|" // nothing persisted yet: a restart loads the empty list
 	if len(sc.PreFile) > 0 {
 		content := []byte("# The file generated by auto. DO NOT EDIT\n" + strings.Join(sc.PreFile, "\n") + "\n")
 		disk.PutDurable(bldir+"/local", content)
 		preSig, _, _ = c18ParseFile(content)
+	}
+	// what a restart loads from the previous file: its entries minus the whitelisted ones
+	preLoad := "|"
+	{
+		wref := newC18Ref(nil, sc.White)
+		var keep []string
+		for _, l := range sc.PreFile {
+			if !wref.whitelisted(c18Labelize(l)) {
+				keep = append(keep, l)
+			}
+		}
+		if len(keep) > 0 {
+			preLoad, _, _ = c18ParseFile([]byte(strings.Join(keep, "\n")))
+		}
 	}
 	cfg := &config.Config{Directory: c18Dir, BlockListDir: bldir, Nullroute: "0.0.0.0", Nullroutev6: "::0",
 		Blocklist: sc.Block, Whitelist: sc.White}
@@ -702,7 +718,8 @@ func c18Phase2(sc *C18Scenario, tr *kit.Trace, res *kit.Result) {
 		res.Probes["interleaved"]++
 	}
 	ver, pers := b.VerifVersions()
-	if pers < ver && len(disk.Fired) == 0 {
+	_ = pers
+	if renames := len(disk.Renames); renames < int(ver) && len(disk.Fired) == 0 {
 		// can only be a stale snapshot dropped in favour of a newer one that is on disk
 		res.Probes["stale-snapshot-dropped"]++
 	}
@@ -732,7 +749,7 @@ func c18Phase2(sc *C18Scenario, tr *kit.Trace, res *kit.Result) {
 		res.Nontrivial = true
 	}
 
-	cand := map[string]bool{preSig: true}
+	cand := map[string]bool{preSig: true, preLoad: true}
 	for st := range states {
 		cand[st] = true
 	}
@@ -935,4 +952,15 @@ func shrinkC18(sc any, fails func(any) bool) any {
 	cur.Schedule = kit.DDMin(cur.Schedule, &budget, func(xs []int) bool { c := *cur; c.Schedule = xs; return fails(&c) })
 	try(func(c *C18Scenario) { c.Flush = "" })
 	return cur
+}
+
+func c18Uniq(xs []string) []string {
+	sort.Strings(xs)
+	var out []string
+	for i, x := range xs {
+		if i == 0 || x != xs[i-1] {
+			out = append(out, x)
+		}
+	}
+	return out
 }
